@@ -77,7 +77,7 @@ IFACE = [("clk", "in", "std_logic"), ("x", "in", "unsigned(3 downto 0)"), ("b", 
 
 def gen_tree(rs, depth=0):
     kind = rs.choice(KINDS)
-    node = {"kind": kind, "k": rs.range(1, 14), "derived": rs.choice([0, 0, 0, 0, 1, 2, 3, 3]), "mon": rs.below(4) == 0, "onexit": rs.below(5) == 0, "children": []}
+    node = {"kind": kind, "k": rs.range(1, 14), "derived": rs.choice([0, 0, 0, 0, 1, 2, 3, 3]), "mon": rs.below(4) == 0, "onexit": rs.below(5) == 0, "lazy": rs.below(6) == 0, "children": []}
     if depth < 2:
         nch = rs.weighted([(3, 0), (4, 1), (3, 2), (1, 3)]) if depth else rs.range(1, 3)
         for j in range(nch):
@@ -116,7 +116,7 @@ def cross_depth(tree, rs):
 
 
 def template_key(n):
-    return repr((n["kind"], n["k"], n["derived"], n.get("mon"), n.get("onexit"), [template_key(c) for c in n["children"]], [c["wire"] for c in n["children"]]))
+    return repr((n["kind"], n["k"], n["derived"], n.get("mon"), n.get("onexit"), n.get("lazy"), [template_key(c) for c in n["children"]], [c["wire"] for c in n["children"]]))
 
 
 def body(node, X, B, E, Y, YB, F, p, hier, classes, L, ind="        "):
@@ -168,10 +168,13 @@ def body(node, X, B, E, Y, YB, F, p, hier, classes, L, ind="        "):
     else:  # instctx: an entity instantiated by a helper that is called inside a concurrent context
         a(f"{ind}@std.concurrent")
         a(f"{ind}def {p}logic():")
-        if hier:
-            a(f"{ind}    {p}ly.next = inc_inst({X})")
+        if hier and kk % 3 == 0:
+            # the instance is created directly in the context, with an EXPRESSION as the actual of its input
+            a(f"{ind}    Inc(x=({X} + {kk}), y={p}ly)")
+        elif hier:
+            a(f"{ind}    {p}ly.next = inc_inst({X}{' + ' + str(kk) if kk % 2 else ''})")
         else:
-            a(f"{ind}    {p}ly.next = {X} + 1")
+            a(f"{ind}    {p}ly.next = ({X}{' + ' + str(kk) if (kk % 2 or kk % 3 == 0) else ''}) + 1")
         a(f"{ind}    {p}lf.next = {E}")
     fs = [f"{p}lf"]
     prev_y = f"{p}ly"
@@ -208,6 +211,15 @@ def body(node, X, B, E, Y, YB, F, p, hier, classes, L, ind="        "):
     if hier and node.get("mon") and n == 0:
         # the node's OWN output port (driven by its outs context, not read by any context) is the actual of a sub-entity's input
         a(f"{ind}Inc(x={Y}, y=Signal[Unsigned[4]]())")
+    if node.get("lazy") and hier:
+        # an output port that is added to the entity lazily, from INSIDE the context that drives it (std.add_entity_port
+        # through a compile-time helper): it belongs to the emitted interface like the declared ports
+        a(f"{ind}{p}pins = {{}}")
+        a(f"{ind}@cohdl.pyeval")
+        a(f"{ind}def {p}lazy_pin():")
+        a(f"{ind}    if 'dbg' not in {p}pins:")
+        a(f"{ind}        {p}pins['dbg'] = std.add_entity_port(self, Port.output(Bit, name='dbg'))")
+        a(f"{ind}    return {p}pins['dbg']")
     if node.get("onexit") and hier:
         # (hierarchical rendering only: inline, the same context is simply declared in the top architecture)
         # the context that drives the outputs is created by a handler registered with cohdl.on_block_exit: it belongs to
@@ -220,6 +232,8 @@ def body(node, X, B, E, Y, YB, F, p, hier, classes, L, ind="        "):
         # plain names must not be rebound inside the context function
         return f"{t} <<= {e}" if (t.startswith("self.") or "[" in t) else f"{t}.next = {e}"
 
+    if node.get("lazy") and hier:
+        a(f"{ind}    {p}lazy_pin().next = {E}")
     a(f"{ind}    {p}lb.next = {p}ly.bitvector")
     if n == 0:
         a(f"{ind}    " + asg(Y, f"{p}ly"))
@@ -270,7 +284,7 @@ def render_hier(tree):
     L = []
     body(tree, "self.x", "self.b", "self.en", "self.y", "self.yb", "self.f", "", True, classes, L)
     out.append("\n".join(L) + "\n")
-    return "".join(out), [(c, n["derived"]) for c, n in order]
+    return "".join(out), [(c, n["derived"], bool(n.get("lazy"))) for c, n in order] + [("E", 0, bool(tree.get("lazy")))]
 
 
 def render_flat(tree):
@@ -290,8 +304,8 @@ def depth_of(n):
 
 
 def structural(design, text, classes):
-    for cname, derived in classes + [("E", 0)]:
-        iface = IFACE + [("g", "out", "std_logic")] if derived == 3 else IFACE
+    for cname, derived, lazy in classes:
+        iface = IFACE + ([("g", "out", "std_logic")] if derived == 3 else []) + ([("dbg", "out", "std_logic")] if lazy else [])
         cnt = len(re.findall(rf"(?im)^\s*entity\s+{cname}\s+is\b", text))
         if cnt != 1:
             return {"rule": "template-emitted-once", "entity": cname, "times": cnt}
@@ -355,7 +369,7 @@ def evaluate(tree, seed, idx, tier):
     rs = rng.Stream(seed, "C12", "stim", idx)
     stim = gen_stimulus(rs, rs.range(30, 70 if tier == "quick" else 200))
     st, det, H, Fl = cosim(dh, df, stim, rng.derive(seed, "C12", "oh", idx), rng.derive(seed, "C12", "of", idx))
-    stats = {"instances": len(dh.instances), "entities": len(classes) + 1, "deltas_hier": H.sim.delta_count, "deltas_flat": Fl.sim.delta_count, "clocks": len(stim), "reorders": H.sim.reorders + Fl.sim.reorders}
+    stats = {"instances": len(dh.instances), "entities": len(classes), "deltas_hier": H.sim.delta_count, "deltas_flat": Fl.sim.delta_count, "clocks": len(stim), "reorders": H.sim.reorders + Fl.sim.reorders}
     return "accepted", (None if st == "ok" else st), det, stats
 
 
